@@ -164,7 +164,6 @@ func c15Symlink(p *an.Prog, r *an.R) {
 	}
 	r.Fn(an.FuncName(f))
 	info := d.Pkg.TypesInfo
-	g := an.NewG(info, d.Decl.Body)
 	symFact := func(want bool) func(cond ast.Expr, truth bool) bool {
 		return func(cond ast.Expr, truth bool) bool {
 			se, ok := ast.Unparen(cond).(*ast.SelectorExpr)
@@ -180,16 +179,28 @@ func c15Symlink(p *an.Prog, r *an.R) {
 		}
 	}
 	nRead := 0
-	for _, l := range g.Locs(func(ast.Node) bool { return true }) {
-		if len(an.CallsTo(info, g.Node(l), false, readFile)) > 0 {
-			nRead++
-			r.Check(g.GuardedBy(l, symFact(false), nil), "C15.R2", zindex+".indexArg/os.ReadFile/only-for-non-links", g.Node(l).Pos(), "file contents are read only for non-links", "os.ReadFile (which follows links) can be reached for a symbolic link: the document holds the content of the file the link points to, possibly outside the indexed tree")
+	// wherever in the package the reads are made (indexArg itself or a helper split off it)
+	p.AllDecls(func(rf *types.Func, rd *an.DeclInfo) {
+		if rd.Pkg != d.Pkg || rd.Decl.Body == nil || rf.Name() == "newIgnoreMatcher" || rf.Name() == "main" || strings.HasSuffix(p.Fset.Position(rd.Decl.Pos()).Filename, "_test.go") {
+			return
 		}
-		if len(an.CallsTo(info, g.Node(l), false, readlink)) > 0 {
-			nRead++
-			r.Check(g.GuardedBy(l, symFact(true), nil), "C15.R2", zindex+".indexArg/os.Readlink/only-for-links", g.Node(l).Pos(), "link targets are read only for links", "os.Readlink can be reached for a regular file")
+		if len(an.CallsTo(info, rd.Decl.Body, true, readFile, readlink)) == 0 {
+			return
 		}
-	}
+		rg := an.NewG(info, rd.Decl.Body)
+		rname := an.FuncName(rf)
+		r.Fn(rname)
+		for _, l := range rg.Locs(func(ast.Node) bool { return true }) {
+			if len(an.CallsTo(info, rg.Node(l), false, readFile)) > 0 {
+				nRead++
+				r.Check(rg.GuardedBy(l, symFact(false), nil), "C15.R2", rname+"/os.ReadFile/only-for-non-links", rg.Node(l).Pos(), "file contents are read only for non-links", "os.ReadFile (which follows links) can be reached for a symbolic link: the document holds the content of the file the link points to, possibly outside the indexed tree")
+			}
+			if len(an.CallsTo(info, rg.Node(l), false, readlink)) > 0 {
+				nRead++
+				r.Check(rg.GuardedBy(l, symFact(true), nil), "C15.R2", rname+"/os.Readlink/only-for-links", rg.Node(l).Pos(), "link targets are read only for links", "os.Readlink can be reached for a regular file")
+			}
+		}
+	})
 	r.Floor("C15.R2.reads", 2, nRead)
 	// other readers in the package
 	pkg := p.Pkg(zindex)
@@ -430,6 +441,36 @@ func c15ReadSource(info *types.Info, body *ast.BlockStmt, rhs ast.Expr) string {
 			switch f.Pkg().Path() + "." + f.Name() {
 			case "os.ReadFile", "io.ReadAll", "os.Readlink":
 				return f.Pkg().Name() + "." + f.Name()
+			}
+			// a helper of the module whose every return hands back what it read
+			if an.InModule(f.Pkg()) && an.Current != nil {
+				if hd := an.Current.Decl(f); hd != nil && hd.Decl.Body != nil && hd.Pkg.TypesInfo == info {
+					var srcs []string
+					all := true
+					ast.Inspect(hd.Decl.Body, func(m ast.Node) bool {
+						if _, isLit := m.(*ast.FuncLit); isLit {
+							return false
+						}
+						rs, ok := m.(*ast.ReturnStmt)
+						if !ok || len(rs.Results) == 0 {
+							return true
+						}
+						first := rs.Results[0]
+						if info.Types[first].IsNil() {
+							return true // error path
+						}
+						src := c15ReadSource(info, hd.Decl.Body, first)
+						if src == "" {
+							all = false
+						} else {
+							srcs = append(srcs, src)
+						}
+						return true
+					})
+					if all && len(srcs) > 0 {
+						return f.Name() + "(" + strings.Join(srcs, "/") + ")"
+					}
+				}
 			}
 		}
 	}
